@@ -126,8 +126,10 @@ Definition C06_statement : Prop :=
 
 (* ================================================================== *)
 (* C14 - overproduction factor                                          *)
+(* any positive rate: with steps longer than the characteristic time (rate > 1) the update would
+   overshoot; the factor is floored at 1 and capped at its maximum (fix in calc_overproduction) *)
 Definition alpha_cfg (P : params) : Prop :=
-  (1 <= a_base P)%Qc /\ (a_base P <= a_max P)%Qc /\ (0 < a_rate P)%Qc /\ (a_rate P <= 1)%Qc.
+  (1 <= a_base P)%Qc /\ (a_base P <= a_max P)%Qc /\ (0 < a_rate P)%Qc.
 
 Definition C14_bounds : Prop :=
   forall (P : params) (a z : Qc), alpha_cfg P ->
@@ -138,7 +140,8 @@ Definition C14_rise : Prop :=
   forall (P : params) (a z : Qc), alpha_cfg P -> a_base P = 1%Qc ->
   (1 <= a)%Qc -> (a <= a_max P)%Qc -> (z <= 1)%Qc ->
   ((a < overprod1 P a z)%Qc ->
-     (0 < z)%Qc /\ overprod1 P a z = (a + (a_max P - a) * z * a_rate P)%Qc) /\
+     (0 < z)%Qc /\ overprod1 P a z = qmin (a_max P) (a + (a_max P - a) * z * a_rate P)%Qc /\
+     ((a_rate P <= 1)%Qc -> overprod1 P a z = (a + (a_max P - a) * z * a_rate P)%Qc)) /\
   ((z <= 0)%Qc -> (overprod1 P a z <= a)%Qc) /\
   (overprod1 P a z - a <= (a_max P - a) * a_rate P)%Qc.
 
